@@ -306,5 +306,7 @@ def run(cx: Cx):
     from .common import include_premises
     include_premises(cx, ['C10'], 'ids reported by the neighbourhood queries are cell ids: same strides as the cell table',
                      only=lambda o: 'id-strides' in o.key or 'id form' in o.message)
+    from .common import check_no_stateful_memo
+    check_no_stateful_memo(cx)
 
 
